@@ -36,7 +36,10 @@ RULE_ADDED = (
               ' '
               'Round 11: every command with a reconnection pending and a status word (12 values'
               " in and out of the device's range) at each of the four exchanges of the repair's"
-              ' bring-up. ')
+              ' bring-up. '
+              ' '
+              'Round 12: the same refusal ten times in a row on one manager at three steps of e'
+              'very command - all ten answers are the same. ')
 RULE = RULE + " " + RULE_ADDED.strip()
 ASSUMPTIONS = [
     "simulated device + fake HID transport trusted; injected status words carry no data "
@@ -184,6 +187,10 @@ def run_shard(spec, acc):
                 for k in range(4):
                     for sw in REPAIR_SWS:
                         check_repair_cell(acc, shape, k, sw, allowed)
+            # ---- the same refusal many times in a row on one manager: the tenth answer is
+            # the first one's (nothing counts refusals)
+            if not v1 and gi % spec["n"] == spec["shard"] % spec["n"]:
+                check_streak(acc, shape, roles, allowed)
             # ---- a well-formed answer (status 9000) that carries another opcode of the
             # same command than the step calls for: the device asking for a header after
             # the last block, announcing brothers in the middle of a header, ...  Whatever
@@ -210,6 +217,39 @@ def run_shard(spec, acc):
 
 REPAIR_SWS = [0x69A0, 0x6A87, 0x6A8F, 0x6B10, 0x6B87, 0x6BFF, 0x6D00, 0x6985, 0x6E00, 0x6F00,
               0x6700, 0x9001]
+
+
+def check_streak(acc, shape, roles, allowed):
+    from ..stack import Stack
+    for k in sorted({0, len(roles) // 2, len(roles) - 1}):
+        for sw in (0x6A8F, 0x6B10, 0x6A87, 0x6B90):
+            dev = fl.make_device(shape)
+            with Stack(dev) as s:
+                s.initialize()
+                codes = []
+                for rep in range(10):
+                    dev.mode = 0x03
+                    dev.adv_policy = {}
+                    if shape.post:
+                        shape.post(dev)
+                    s.bus.arm({k: Fault("sw", sw=sw)})
+                    reply, exc, out = s.request(shape.request)
+                    if exc is not None or not isinstance(reply, dict):
+                        codes.append("stopped:%s" % type(exc).__name__)
+                        break
+                    codes.append(reply.get("errorcode"))
+                    if hasattr(dev, "reset_adv"):
+                        dev.reset_adv()
+                    dev.reset_sign()
+            acc.evaluations += 1
+            acc.distinct_disjoint += 1
+            acc.count("refusal_streaks")
+            if len(set(codes)) != 1:
+                acc.violation("same-refusal-answered-differently-when-repeated:%s" % shape.command,
+                              {"shape": shape.name, "step": k, "role": roles[k],
+                               "sw": "%04x" % sw, "codes": codes},
+                              {"shape": shape.name, "v1": False, "k": k, "role": roles[k],
+                               "fault": ["sw", sw, None, False], "prelude": None, "streak": True})
 
 
 def check_repair_cell(acc, shape, k, sw, allowed):
